@@ -525,3 +525,62 @@ func dropTypes(h *hello.Hello, keep int, types ...uint16) *hello.Hello {
 }
 
 var _ = errors.Is
+
+// TestC04TruncSweep enumerates EVERY truncation offset of the outer hello and
+// of the decrypted inner hello of generated tuples: each must be aborted with
+// decode_error (plus alert and Close), never forwarded.
+func TestC04TruncSweep(t *testing.T) {
+	rec := ev.Get("C04")
+	rapid.Check(t, func(t *rapid.T) {
+		pub := hello.GenName(t, "public_name", 60)
+		key := drawKey(t, "key", -1, pub)
+		tp := hello.GenTuple(t, hello.TupleOpts{PublicName: pub})
+		suite := key.Suites[0]
+		comp := hello.Compress(tp.Inner, tp.RunStart, tp.RunLen)
+		body := hello.Encode(comp, nil)
+		if len(body) > 500 || len(tp.Outer.Message()) > 700 {
+			t.Skip("keep the sweep small")
+		}
+		keys := []*hello.Key{key}
+		run := func(record []byte, what string) {
+			rp := map[string]any{"keys": keysReplay(keys), "client_stream": hx(record), "expect": "abort", "want_error": "decode_error", "want_alert": 50, "faults": []string{what}}
+			tr := wire.New(record, io.EOF)
+			conn, cerr := newConn(context.Background(), tr, echKeys(keys...))
+			checkAbortClasses(t, "C04", rp, tr, conn, cerr, []string{"decode_error"})
+			rec.Class("trunc_sweep_offset")
+		}
+		// inner: every strict prefix of the encoded inner (authentically sealed)
+		noExtInner := 2 + 32 + 1 + 2 + len(comp.Suites) + 1 + len(comp.Compression)
+		for k := 1; k < len(body); k++ {
+			if k == noExtInner {
+				continue // a hello that ends after the compression methods is a (different) valid encoding
+			}
+			sl, err := hello.NewSealer(key.Config, key.Priv.PublicKey().Bytes(), suite, key.ID)
+			if err != nil {
+				t.Fatalf("harness: %v", err)
+			}
+			o := tp.Outer.Clone()
+			m, err := sl.SealOuter(o, body[:k], true)
+			if err != nil {
+				t.Fatalf("harness: %v", err)
+			}
+			run(hello.Record(22, 0x0303, m), fmt.Sprintf("inner_truncated@%d/%d", k, len(body)))
+		}
+		// outer: every strict prefix of the sealed outer body
+		sl, _ := hello.NewSealer(key.Config, key.Priv.PublicKey().Bytes(), suite, key.ID)
+		o := tp.Outer.Clone()
+		m, err := sl.SealOuter(o, hello.Encode(comp, make([]byte, tp.Pad%32)), true)
+		if err != nil {
+			t.Fatalf("harness: %v", err)
+		}
+		ob := m[4:]
+		noExtOuter := 2 + 32 + 1 + len(o.SessionID) + 2 + len(o.Suites) + 1 + len(o.Compression)
+		for k := 0; k < len(ob); k++ {
+			if k == noExtOuter {
+				continue
+			}
+			run(hello.Record(22, 0x0303, hello.Msg(1, ob[:k])), fmt.Sprintf("outer_truncated@%d/%d", k, len(ob)))
+		}
+		rec.Class("trunc_sweep_hello")
+	})
+}
